@@ -429,6 +429,52 @@ def g10(led, rid, ctx):
     led.floor(rid, "proof file creations", m, 1)
 
 
+def g12(led, rid, ctx):
+    """the byte parser leaves the Comment state only on a line feed that it has actually seen: the
+    store `state = StartLine` in the Comment arm is dominated by a byte == '\n' test (a chunk may end
+    inside a comment)"""
+    from ..flow import edge_facts, rel_fact
+    p = ctx.bin
+    f = None
+    for x in p.fns.values():
+        if x.name == "parse_chunk" and "/parsers/dimacs.rs" in x.file and x.kind != "Closure":
+            f = x
+    if f is None:
+        raise AnchorMissing("DimacsParser::parse_chunk")
+    R = resolver(f)
+    n = 0
+    for b in f.blocks:
+        for st in b["stmts"]:
+            if st["s"] != "assign" or not st["dst"]["proj"]:
+                continue
+            names = [x.get("name") for x in st["dst"]["proj"] if "field" in x]
+            if names[-1:] != ["state"]:
+                continue
+            e = R.rvalue(st["rv"])
+            if not (e.k == "agg" and e.b == "StartLine"):
+                continue
+            gs = guards_of(f, b["id"])
+            in_comment = any(g.kind == "variant" and g.val == "Comment" for g in gs)
+            if not in_comment:
+                continue
+            n += 1
+            saw_lf = False
+            for g in gs:
+                if g.kind == "int" and g.val == 10:
+                    saw_lf = True
+                rf = rel_fact(g)
+                if rf and rf[0] == "Eq":
+                    k_ = [peel(x, calls=None) for x in rf[1:]]
+                    if any(x.k == "const" and x.a == 10 for x in k_):
+                        saw_lf = True
+            led.check(saw_lf, rid, "comment-ends-only-at-line-feed", "%s:%d" % (f.file, st["line"]),
+                      "state = StartLine dominated by byte == '\\n'",
+                      "parse_chunk leaves the Comment state without having seen the line feed in this chunk: when "
+                      "a comment crosses a chunk boundary its remainder is parsed as clauses (or rejected), so "
+                      "the verdict depends on where the 8 KiB boundaries fall")
+    led.floor(rid, "Comment → StartLine transitions", n, 1)
+
+
 def run(ctx, led):
     run_rule(led, "G1", "DRAT literal sign TABLE (6 rows) and terminating 0", g1, ctx)
     run_rule(led, "G2", "the sink maps every literal, negates exactly the negative codes, forwards all "
@@ -453,3 +499,4 @@ def run(ctx, led):
     run_rule(led, "G11", "a learned clause is deleted only if it is not the reason of a trail entry (shared with C07-J1)", _C07.j1, ctx)
     from . import kernel as _kernel
     _kernel.run_bundle(led, ctx, "G")
+    run_rule(led, "G12", "the Comment state is left only on a line feed seen in the current chunk", g12, ctx)
